@@ -1,6 +1,6 @@
 (* C09 — the target-duration rule is enforced exactly, at every boundary. *)
 From hls Require Import Base Float Lex Kinds Types Tags Line Keys Media.
-From hls.Proofs Require Import Build Parse MediaProps.
+From hls.Proofs Require Import Build Parse MediaProps FloatRound DurationText.
 Open Scope N_scope.
 
 (* rounded_ns is "nearest whole second, halves up", in nanoseconds *)
@@ -35,6 +35,24 @@ Check C09_no_long_segment : forall b p, build b = Ok p ->
   forall sg, In sg (mp_segs p) ->
     rounded_ns (inf_dur (sg_inf sg)) <= max_seg_dur (mp_target p) (b_excess b).
 Print Assumptions C09_no_long_segment.
+
+(* the boundary on the text: for a plain decimal duration (at most nine fractional digits, below 2^20 s) the rounded
+   duration is within T whole seconds iff the decimal number is below T + 1/2 — the passage through f64 never moves
+   the x.5 boundary, for any such text (x.499999999 is accepted, x.5 is not, for every x) *)
+Theorem C09_text_boundary : forall c a b (T : N), forallb is_digit (c :: a) = true -> forallb is_digit b = true ->
+  (List.length b <= 9)%nat ->
+  let m := zval ((c :: a) ++ b) 0 in let fc := Z.of_nat (List.length b) in
+  (m < 1048576 * 10 ^ fc)%Z ->
+  exists d, parse_duration ((c :: a) ++ 46%N :: b) = Ok d /\
+    (rounded_ns d <= T * 1000000000 <-> (2 * m < (2 * Z.of_N T + 1) * 10 ^ fc)%Z).
+Proof. exact duration_text_boundary. Qed.
+Check C09_text_boundary : forall c a b (T : N), forallb is_digit (c :: a) = true -> forallb is_digit b = true ->
+  (List.length b <= 9)%nat ->
+  let m := zval ((c :: a) ++ b) 0 in let fc := Z.of_nat (List.length b) in
+  (m < 1048576 * 10 ^ fc)%Z ->
+  exists d, parse_duration ((c :: a) ++ 46%N :: b) = Ok d /\
+    (rounded_ns d <= T * 1000000000 <-> (2 * m < (2 * Z.of_N T + 1) * 10 ^ fc)%Z).
+Print Assumptions C09_text_boundary.
 
 Example C09_example :
   is_ok (parse_media (lit "#EXTM3U
